@@ -113,14 +113,19 @@ def rotation_matrix_to_rodrigues_vector(r, calculate_jacobian=False):
             r_out = np.zeros((3, 1))
         else:
             rx, ry, rz = np.sqrt(np.clip((np.diag(r) + 1) * 0.5, 0, np.inf))
-            if r[0, 1] < 0:
+            # Read the signs off the symmetric part of the matrix. Its
+            # off-diagonal entries are (1 - c) * k_i * k_j, whereas just short
+            # of a half-turn the entries themselves also contain +/- s * k_l,
+            # which can outweigh the product of two small axis components and
+            # flip the sign.
+            if r[0, 1] + r[1, 0] < 0:
                 ry = -ry
-            if r[0, 2] < 0:
+            if r[0, 2] + r[2, 0] < 0:
                 rz = -rz
             if (
                 np.abs(rx) < np.abs(ry)
                 and np.abs(rx) < np.abs(rz)
-                and ((r[1, 2] > 0) != (ry * rz > 0))
+                and ((r[1, 2] + r[2, 1] > 0) != (ry * rz > 0))
             ):
                 rz = -rz
             r_out = np.array([[rx, ry, rz]]).T
